@@ -1358,6 +1358,66 @@ func macroShape(repo string, args []string) (string, error) {
 		}
 	}
 	fmt.Fprintf(&sb, "Definition gen_reset_per_group : bool := %v.\n", resetPerGroup)
+	// the spelling of a filter (FilterExpr.Src, what the user wrote: names of constants and helpers included) must not take part
+	// in its meaning: every read of a Src field in the engine's packages, with the statement it stands in
+	var srcReads []string
+	for _, dir := range []string{"/ruleguard", "/ruleguard/ir"} {
+		ents, err := os.ReadDir(repo + dir)
+		if err != nil {
+			return "", err
+		}
+		for _, ent := range ents {
+			nm := ent.Name()
+			if ent.IsDir() || !strings.HasSuffix(nm, ".go") || strings.HasSuffix(nm, "_test.go") || strings.HasPrefix(nm, "verif_hooks") {
+				continue
+			}
+			gf, err := parseGo(l.fset, repo+dir+"/"+nm)
+			if err != nil {
+				return "", err
+			}
+			for _, d := range gf.Decls {
+				fd, ok := d.(*ast.FuncDecl)
+				if !ok || fd.Body == nil {
+					continue
+				}
+				var stmts []ast.Stmt
+				ast.Inspect(fd.Body, func(n ast.Node) bool {
+					if st, ok := n.(ast.Stmt); ok {
+						if _, blk := st.(*ast.BlockStmt); !blk {
+							stmts = append(stmts, st)
+						}
+					}
+					return true
+				})
+				ast.Inspect(fd.Body, func(n ast.Node) bool {
+					se, ok := n.(*ast.SelectorExpr)
+					if !ok || se.Sel.Name != "Src" {
+						return true
+					}
+					// the innermost simple statement that contains the read
+					var in ast.Stmt
+					for _, st := range stmts {
+						if st.Pos() <= se.Pos() && se.End() <= st.End() {
+							switch st.(type) {
+							case *ast.IfStmt, *ast.ForStmt, *ast.RangeStmt, *ast.SwitchStmt, *ast.TypeSwitchStmt, *ast.CaseClause, *ast.SelectStmt, *ast.LabeledStmt:
+								continue
+							}
+							if in == nil || (st.Pos() >= in.Pos() && st.End() <= in.End()) {
+								in = st
+							}
+						}
+					}
+					desc := l.str(se)
+					if in != nil {
+						desc = l.str(in)
+					}
+					srcReads = append(srcReads, nm+": "+fd.Name.Name+": "+desc)
+					return true
+				})
+			}
+		}
+	}
+	fmt.Fprintf(&sb, "Definition gen_filter_src_reads : list string :=\n  %s.\n", coqStringList(srcReads))
 	impl := findFunc(f, "converter", "convertFilterExprImpl")
 	if impl == nil {
 		return "", fmt.Errorf("convertFilterExprImpl not found")
